@@ -51,6 +51,7 @@ def strategy_impl(draw, tier):
     order = draw(gen.permutations_of(dims))
     integer_data = draw(st.booleans())
     values = draw(gen.data_values([sizes[d] for d in order], elements=gen.small_ints if integer_data else None))
+    dtype = draw(st.sampled_from(["float64", "float64", "float64", "float32"])) if integer_data else "float64"
     metrics = {}
     for a in axes:
         for p in a["positions"]:
@@ -71,6 +72,7 @@ def strategy_impl(draw, tier):
         "call_fill": draw(gen.fill_spelling(names)),
         "metrics": metrics,
         "mode": draw(st.sampled_from(["plain", "plain", "weighted", "cumint"])),
+        "dtype": dtype,
     }
 
 
@@ -126,9 +128,10 @@ def check(case, ctx):
         targets[n] = case["to"][n] if case["to"] is not None else M.default_target(
             by_name[n]["positions"], case["data_pos"][n], by_name[n]["default_shifts"])
 
-    a0 = np.asarray(case["values"], dtype=np.float64)
+    plain32 = case.get("dtype") == "float32" and case["mode"] == "plain"  # (metrics are float64: weighting promotes anyway)
+    a0 = np.asarray(case["values"], dtype=np.float64).astype("float32" if plain32 else "float64")
     dims0 = list(case["dims"])
-    da = build.data_array(case["values"], dims0, name="phi")
+    da = build.data_array(case["values"], dims0, name="phi").astype(a0.dtype)
     mode = case["mode"]
     ax_arg = spell_axis(case["op_axes"], case["axis_spelling"])
     kw = dict(bkwargs(case), **to_kw(case, targets, case["to"] is not None))
